@@ -1,4 +1,5 @@
 import CalicoVerif.Proofs.C11GuardPorts
+import CalicoVerif.Proofs.C11Cidr6
 /-!
 C11 — the whole match part of a rule (`ruleMatches`, IPv4) is a guard for the
 reference `ruleMatch`: discharges the `RuleGuarded` hypothesis of the
@@ -95,12 +96,16 @@ theorem gl_cidrs (env : Env) (st : List Byte) (hc : SetCtx env st) (rid part : N
     GL env st rid (flat (cidrsMatch env.c.v6 rid part neg leg nets).1)
       (if neg then !(nets.any (netContains env.c.v6 ((pktOfD st).addr leg)))
        else nets.any (netContains env.c.v6 ((pktOfD st).addr leg))) := by
-  have hn : netContains env.c.v6 ((pktOfD st).addr leg) = netContains4 ((pktOfD st).addr leg) := by
-    funext n; simp [netContains, hc.v4]
-  rw [hc.v4] at *
-  rw [hn]
-  obtain ⟨g, hl⟩ := guard_cidrsMatch env st hc.len rid part neg leg nets
-  exact ⟨g, fun l hm => by rw [hl l hm]; rfl⟩
+  cases hv : env.c.v6
+  · have hn : netContains false ((pktOfD st).addr leg) = netContains4 ((pktOfD st).addr leg) := by
+      funext n; simp [netContains]
+    rw [hn]
+    obtain ⟨g, hl⟩ := guard_cidrsMatch env st hc.len rid part neg leg nets
+    exact ⟨g, fun l hm => by rw [hl l hm]; rfl⟩
+  · have hn : netContains true ((pktOfD st).addr leg) = netContains6 ((pktOfD st).addr leg) := by
+      funext n; simp [netContains]
+    rw [hn]
+    exact guard_cidrsMatch6 env st rid part neg leg nets
 
 theorem gl_ipSetMatch (env : Env) (st : List Byte) (hc : SetCtx env st) (rid : Nat) (neg : Bool) (leg : Leg)
     (ids : List Nat) (h : ∀ id ∈ ids, id < 2 ^ 64) :
